@@ -1,3 +1,267 @@
-import GambitV.Model.Schedule
+import GambitV.Lemmas.Schedule
+
+/-!
+# C13 — the concurrent signature calculation returns one signature per file, in file order
+
+`Model/Schedule.lean` follows the executor branch of `calc_file_signatures`: one task per file,
+`sigs = [None] * n`, and as the futures complete — in *some* order `σ`, a permutation of
+`0..n-1` — `sigs[i] = future.result()`, where `result()` re-raises the worker's exception; then
+`assert all(sig is not None for sig in sigs)`.  `calcSeq` is the branch without an executor.
+
+Every theorem below is stated for an arbitrary completion order `σ`.  Helper lemmas live in
+`Lemmas/Schedule.lean`.  Core Lean only.
+-/
 namespace GambitV.C13
+open GambitV
+
+/-! ### The completion loop -/
+
+/-- If every task succeeds, the loop ends with cell `i` holding task `i`'s result — for every
+completion order. -/
+theorem collect_ok {ε α : Type} (n : Nat) (result : Nat → Except ε α) (r : Nat → α)
+    (hok : ∀ i, i < n → result i = .ok (r i)) (σ : List Nat) (hσ : σ.Perm (List.range n)) :
+    collect n result σ = .ok ((List.range n).map (fun i => some (r i))) := by
+  have hall : ∀ i ∈ σ, ∃ a, result i = .ok a := fun i hi =>
+    ⟨r i, hok i (List.mem_range.1 (hσ.mem_iff.1 hi))⟩
+  unfold collect
+  rw [foldl_collectStep_ok result σ _ hall]
+  have hσ' : σ.Perm (List.range (List.replicate n (none : Option α)).length) := by
+    rw [List.length_replicate]; exact hσ
+  rw [setFold_perm _ σ _ hσ', List.length_replicate]
+  congr 1
+  apply List.map_congr_left
+  intro i hi
+  exact okVal_ok (hok i (List.mem_range.1 hi))
+
+/-- The loop ends normally only when every file's task succeeded, and then cell `i` holds exactly
+task `i`'s result. -/
+theorem collect_eq_ok {ε α : Type} (n : Nat) (result : Nat → Except ε α) (σ : List Nat)
+    (hσ : σ.Perm (List.range n)) (l' : List (Option α)) (h : collect n result σ = .ok l') :
+    (∀ i, i < n → ∃ a, result i = .ok a) ∧ l' = (List.range n).map (okVal result) := by
+  unfold collect at h
+  have hall := foldl_collectStep_eq_ok result σ _ l' h
+  rw [foldl_collectStep_ok result σ _ hall] at h
+  have hσ' : σ.Perm (List.range (List.replicate n (none : Option α)).length) := by
+    rw [List.length_replicate]; exact hσ
+  rw [setFold_perm _ σ _ hσ', List.length_replicate] at h
+  refine ⟨fun i hi => hall i (hσ.mem_iff.2 (List.mem_range.2 hi)), ?_⟩
+  injection h with h
+  exact h.symm
+
+/-! ### 1. Every completion order gives the same, file-ordered list -/
+
+/-- 1. If every file's task succeeds, then for every completion order the call returns one
+signature per file, in file order, each being the single-file result. -/
+theorem collect_any_order {ε α : Type} (n : Nat) (result : Nat → Except ε α) (r : Nat → α)
+    (hok : ∀ i, i < n → result i = .ok (r i)) (σ : List Nat) (hσ : σ.Perm (List.range n)) :
+    calcAll n result σ = .ok (some ((List.range n).map r)) := by
+  unfold calcAll
+  rw [collect_ok n result r hok σ hσ]
+  have : (List.range n).map (fun i => some (r i)) = ((List.range n).map r).map some := by
+    rw [List.map_map]; rfl
+  simp only [this, allSome_map_some]
+
+/-- 1b. In particular two completion orders cannot give different outputs. -/
+theorem order_irrelevant {ε α : Type} (n : Nat) (result : Nat → Except ε α) (r : Nat → α)
+    (hok : ∀ i, i < n → result i = .ok (r i)) (σ τ : List Nat) (hσ : σ.Perm (List.range n))
+    (hτ : τ.Perm (List.range n)) : calcAll n result σ = calcAll n result τ := by
+  rw [collect_any_order n result r hok σ hσ, collect_any_order n result r hok τ hτ]
+
+/-! ### 2. A failing file fails the whole call -/
+
+/-- 2b. Whatever exception leaves the call was raised by some file's task. -/
+theorem collect_error_source {ε α : Type} (n : Nat) (result : Nat → Except ε α) (σ : List Nat)
+    (hσ : σ.Perm (List.range n)) (e' : ε) (h : calcAll n result σ = .error e') :
+    ∃ j, j < n ∧ result j = .error e' := by
+  unfold calcAll at h
+  cases hc : collect n result σ with
+  | ok l => rw [hc] at h; cases h
+  | error e =>
+    rw [hc] at h
+    injection h with h
+    subst h
+    obtain ⟨j, hj, hje⟩ := foldl_collectStep_eq_error result σ _ e hc
+    exact ⟨j, List.mem_range.1 (hσ.mem_iff.1 hj), hje⟩
+
+/-- 2. If any file's task fails, the call fails — for every completion order. -/
+theorem collect_error {ε α : Type} (n : Nat) (result : Nat → Except ε α) (σ : List Nat)
+    (hσ : σ.Perm (List.range n)) (i : Nat) (hi : i < n) (e : ε) (he : result i = .error e) :
+    ∃ e', calcAll n result σ = .error e' := by
+  unfold calcAll
+  cases hc : collect n result σ with
+  | error e' => exact ⟨e', rfl⟩
+  | ok l =>
+    obtain ⟨a, ha⟩ := (collect_eq_ok n result σ hσ l hc).1 i hi
+    rw [he] at ha
+    cases ha
+
+/-- 2 + 2b together: the call fails, with the exception of one of the failing files. -/
+theorem collect_error_strong {ε α : Type} (n : Nat) (result : Nat → Except ε α) (σ : List Nat)
+    (hσ : σ.Perm (List.range n)) (i : Nat) (hi : i < n) (e : ε) (he : result i = .error e) :
+    ∃ e', calcAll n result σ = .error e' ∧ ∃ j, j < n ∧ result j = .error e' := by
+  obtain ⟨e', h⟩ := collect_error n result σ hσ i hi e he
+  exact ⟨e', h, collect_error_source n result σ hσ e' h⟩
+
+/-! ### 3. No partial list, no assertion failure -/
+
+/-- 3. A returned list has one entry per file and entry `i` is file `i`'s own result (so every
+file's task succeeded): there is no partially filled or misordered output.
+(`i < l.length` is `i < n` by the first conjunct; stated this way so that `l[i]` typechecks.) -/
+theorem no_partial_list {ε α : Type} (n : Nat) (result : Nat → Except ε α) (σ : List Nat)
+    (hσ : σ.Perm (List.range n)) (l : List α) (h : calcAll n result σ = .ok (some l)) :
+    l.length = n ∧ ∀ i (hi : i < l.length), result i = .ok l[i] := by
+  unfold calcAll at h
+  cases hc : collect n result σ with
+  | error e => rw [hc] at h; cases h
+  | ok l' =>
+    rw [hc] at h
+    have hs : allSome l' = some l := by injection h with h
+    have h1 := allSome_eq_some l' l hs
+    have h2 := (collect_eq_ok n result σ hσ l' hc).2
+    have h3 : l.map some = (List.range n).map (okVal result) := by rw [← h1, h2]
+    have hlen : l.length = n := by
+      have := congrArg List.length h3
+      simpa using this
+    refine ⟨hlen, fun i hi => ?_⟩
+    have hin : i < n := by omega
+    have h4 := congrArg (fun t => t[i]?) h3
+    simp only [List.getElem?_map, List.getElem?_range hin, Option.map_some] at h4
+    rw [List.getElem?_eq_getElem hi, Option.map_some] at h4
+    injection h4 with h4
+    exact okVal_eq_some h4.symm
+
+/-- 3, indexed by `i < n`. -/
+theorem no_partial_list_get {ε α : Type} (n : Nat) (result : Nat → Except ε α) (σ : List Nat)
+    (hσ : σ.Perm (List.range n)) (l : List α) (h : calcAll n result σ = .ok (some l)) (i : Nat)
+    (hi : i < n) :
+    result i = .ok (l[i]'(by rw [(no_partial_list n result σ hσ l h).1]; exact hi)) :=
+  (no_partial_list n result σ hσ l h).2 i _
+
+/-- 3b. With a permutation schedule the `assert all(sig is not None …)` never fires. -/
+theorem never_assertion {ε α : Type} (n : Nat) (result : Nat → Except ε α) (σ : List Nat)
+    (hσ : σ.Perm (List.range n)) : calcAll n result σ ≠ .ok none := by
+  intro h
+  unfold calcAll at h
+  cases hc : collect n result σ with
+  | error e => rw [hc] at h; cases h
+  | ok l' =>
+    rw [hc] at h
+    have hs : allSome l' = none := by injection h
+    obtain ⟨hall, hl'⟩ := collect_eq_ok n result σ hσ l' hc
+    have hmem := allSome_eq_none l' hs
+    rw [hl'] at hmem
+    obtain ⟨i, hi, hv⟩ := List.mem_map.1 hmem
+    obtain ⟨a, ha⟩ := hall i (List.mem_range.1 hi)
+    rw [okVal_ok ha] at hv
+    cases hv
+
+/-- The three possible outcomes, for every completion order: all files succeeded and the full
+ordered list is returned, or the call raises one of the files' exceptions. -/
+theorem calcAll_cases {ε α : Type} (n : Nat) (result : Nat → Except ε α) (σ : List Nat)
+    (hσ : σ.Perm (List.range n)) :
+    (∃ l, calcAll n result σ = .ok (some l) ∧ l.length = n) ∨
+      (∃ e' j, calcAll n result σ = .error e' ∧ j < n ∧ result j = .error e') := by
+  cases h : calcAll n result σ with
+  | error e' =>
+    obtain ⟨j, hj, hje⟩ := collect_error_source n result σ hσ e' h
+    exact Or.inr ⟨e', j, rfl, hj, hje⟩
+  | ok o =>
+    cases o with
+    | none => exact absurd h (never_assertion n result σ hσ)
+    | some l =>
+      exact Or.inl ⟨l, rfl, (no_partial_list n result σ hσ l h).1⟩
+
+/-! ### 4. The sequential branch -/
+
+/-- 4. Without an executor the same list is produced: under the hypothesis of 1, the sequential
+branch returns the list that the executor branch returns for every completion order. -/
+theorem seq_eq_concurrent {ε α : Type} (n : Nat) (result : Nat → Except ε α) (r : Nat → α)
+    (hok : ∀ i, i < n → result i = .ok (r i)) : calcSeq n result = .ok ((List.range n).map r) :=
+  mapM_except_ok result r (List.range n) (fun i hi => hok i (List.mem_range.1 hi))
+
+/-- 4, as an equation between the two branches. -/
+theorem seq_agrees_concurrent {ε α : Type} (n : Nat) (result : Nat → Except ε α) (r : Nat → α)
+    (hok : ∀ i, i < n → result i = .ok (r i)) (σ : List Nat) (hσ : σ.Perm (List.range n)) :
+    calcAll n result σ = (calcSeq n result).map some := by
+  rw [seq_eq_concurrent n result r hok, collect_any_order n result r hok σ hσ]
+  rfl
+
+/-- 4b. A failing file fails the sequential branch too, with a failing file's exception. -/
+theorem calcSeq_error_strong {ε α : Type} (n : Nat) (result : Nat → Except ε α) (i : Nat)
+    (hi : i < n) (e : ε) (he : result i = .error e) :
+    ∃ e', calcSeq n result = .error e' ∧ ∃ j, j < n ∧ result j = .error e' := by
+  obtain ⟨e', h1, j, hj, hje⟩ :=
+    mapM_except_error result (List.range n) ⟨i, List.mem_range.2 hi, e, he⟩
+  exact ⟨e', h1, j, List.mem_range.1 hj, hje⟩
+
+theorem calcSeq_error {ε α : Type} (n : Nat) (result : Nat → Except ε α) (i : Nat) (hi : i < n)
+    (e : ε) (he : result i = .error e) : ∃ e', calcSeq n result = .error e' := by
+  obtain ⟨e', h, _⟩ := calcSeq_error_strong n result i hi e he
+  exact ⟨e', h⟩
+
+/-- 4c. Both branches fail together: the sequential branch raises iff the executor branch raises
+(for any completion order). -/
+theorem seq_fails_iff_concurrent_fails {ε α : Type} (n : Nat) (result : Nat → Except ε α)
+    (σ : List Nat) (hσ : σ.Perm (List.range n)) :
+    (∃ e', calcSeq n result = .error e') ↔ (∃ e', calcAll n result σ = .error e') := by
+  constructor
+  · rintro ⟨e', h⟩
+    rcases calcAll_cases n result σ hσ with ⟨l, hl, _⟩ | ⟨e'', _, h2, _⟩
+    · obtain ⟨hlen, hget⟩ := no_partial_list n result σ hσ l hl
+      obtain ⟨l', hl'⟩ := mapM_except_ok' result (List.range n) (fun i hi =>
+        ⟨l[i]'(by have := List.mem_range.1 hi; omega), hget i _⟩)
+      rw [calcSeq, hl'] at h
+      cases h
+    · exact ⟨e'', h2⟩
+  · rintro ⟨e', h⟩
+    obtain ⟨j, hj, hje⟩ := collect_error_source n result σ hσ e' h
+    exact calcSeq_error n result j hj e' hje
+
+/-! ### 5. Non-vacuity -/
+
+section Examples
+
+private def res3 : Nat → Except String Nat := fun i => .ok (10 * i + 7)
+/-- file 1 fails -/
+private def res3bad : Nat → Except String Nat := fun i => if i = 1 then .error "bad file" else .ok (10 * i + 7)
+/-- files 0 and 2 fail, with different exceptions -/
+private def res3bad2 : Nat → Except String Nat := fun i =>
+  if i = 0 then .error "zero" else if i = 2 then .error "two" else .ok 5
+
+private def isOkSome (x : Except String (Option (List Nat))) (l : List Nat) : Bool :=
+  match x with
+  | .ok (some l') => l' == l
+  | _ => false
+
+private def isErr {β : Type} (x : Except String β) (e : String) : Bool :=
+  match x with
+  | .error e' => e' == e
+  | _ => false
+
+example : [2, 0, 1].Perm (List.range 3) := by decide
+example : [1, 2, 0].Perm (List.range 3) := by decide
+
+-- two different completion orders, same file-ordered list
+example : isOkSome (calcAll 3 res3 [2, 0, 1]) [7, 17, 27] = true := by decide
+example : isOkSome (calcAll 3 res3 [1, 2, 0]) [7, 17, 27] = true := by decide
+example : calcAll 3 res3 [2, 0, 1] = .ok (some [7, 17, 27]) := rfl
+example : calcAll 3 res3 [1, 2, 0] = .ok (some [7, 17, 27]) := rfl
+-- the intermediate list after the loop
+example : collect 3 res3 [2, 0, 1] = .ok [some 7, some 17, some 27] := rfl
+-- one failing file: the call fails in both orders
+example : isErr (calcAll 3 res3bad [2, 0, 1]) "bad file" = true := by decide
+example : isErr (calcAll 3 res3bad [1, 2, 0]) "bad file" = true := by decide
+-- two failing files: which exception is raised depends on the completion order
+example : isErr (calcAll 3 res3bad2 [2, 0, 1]) "two" = true := by decide
+example : isErr (calcAll 3 res3bad2 [1, 0, 2]) "zero" = true := by decide
+-- a schedule that is not a permutation (a lost future) would trip the assertion: the hypothesis
+-- `hσ` of `never_assertion` is needed
+example : calcAll 3 res3 [2, 0] = .ok none := rfl
+-- sequential branch
+example : calcSeq 3 res3 = .ok [7, 17, 27] := rfl
+example : isErr (calcSeq 3 res3bad) "bad file" = true := by decide
+example : isErr (calcSeq 3 res3bad2) "zero" = true := by decide
+
+end Examples
+
 end GambitV.C13
